@@ -104,6 +104,32 @@ def dump_bad(ctx, c, kind, detail):
                                      panic=detail.get("panic"), expected_filled=detail.get("expected_filled"), fam=c["fam"])) + "\n")
 
 
+def _subpaths(s):
+    import re
+    out = []
+    for sp in re.findall(r"M[^M]*", s or ""):
+        nums = [float(x) for x in re.findall(r"-?\d+\.?\d*(?:e-?\d+)?", sp)]
+        pts = list(zip(nums[0::2], nums[1::2]))
+        if len(pts) > 1 and pts[0] == pts[-1]:
+            pts = pts[:-1]
+        out.append(pts)
+    return out
+
+
+def has_reversed_duplicate(P, Q):
+    """the operands contain a contour and its exact reverse (as cyclic vertex sequences)"""
+    S = _subpaths(P) + _subpaths(Q)
+    for i in range(len(S)):
+        for j in range(i + 1, len(S)):
+            a, b = S[i], S[j]
+            if len(a) != len(b) or len(a) < 3:
+                continue
+            rb = b[::-1]
+            if any(rb[k:] + rb[:k] == a for k in range(len(a))):
+                return True
+    return False
+
+
 def match_known(known, c, kind, detail):
     """A failure is a listed known finding only when every key of the finding's trigger matches exactly."""
     for f in known:
@@ -116,6 +142,8 @@ def match_known(known, c, kind, detail):
                           and ("rule" not in e or e["rule"] == c["desc"].get("rule")) for e in v)
             elif k == "panic_in":
                 ok &= (detail.get("panic") or "") in v
+            elif k == "reversed_duplicate":
+                ok &= has_reversed_duplicate(c["desc"].get("P"), c["desc"].get("Q")) == v
             elif k == "kind_in":
                 ok &= kind in v
             elif k == "family_has_any":
